@@ -1,4 +1,5 @@
 """C18 - results are reproducible from the global random seeds (bit-for-bit differential replay)."""
+import collections
 import gc
 import hashlib
 import json
@@ -51,6 +52,10 @@ def gen_cfg(rnd, i=0):
                    manual_feed=True, size=[3, 2, 5][(i // 12) % 3], steps=40, model="linear")
     elif i % 12 == 9:       # ... and explainers built entirely from library defaults
         cfg.update(explainer=["sage", "pfi"][(i // 12) % 2], storage="library-default", imputer="joint")
+    if i % 12 in (4, 7) or (i % 24 == 12):
+        # a classifier / cross-entropy pair written with NumPy scalars whose edge cases (log(0), 0/0, exp overflow) go through NumPy's
+        # process-wide floating-point error handling: their results are only reproducible if nobody leaves that handling changed
+        cfg["model"] = "np-probs"
     return cfg
 
 
@@ -94,6 +99,7 @@ def junk(rnd):
         e.explain_one({"a": float(t), "b": 1.0}, 0.0)
     MultiValueTracker(WelfordTracker()).update({"x": 1})
     RiverWrapper(lambda x: "lab")({"a": 1})
+    interference(rnd)
     # small NumPy arrays of assorted sizes created, filled and dropped: whatever the allocator hands out next is "dirty"
     churn = [np.full(rnd.randrange(1, 9), rnd.uniform(-1e6, 1e6)) for _ in range(rnd.randrange(20, 80))]
     del churn[::2]
@@ -101,6 +107,197 @@ def junk(rnd):
     gc.collect()
     time.sleep(0.005)
     return keep
+
+
+COUNTS = collections.Counter()      # counters of the helper phases, flushed into run.count by main()
+
+
+def interference(rnd):
+    """Unrelated library objects USED in legal ways that reach their edge paths: trackers read before the first update, multi-value
+    trackers whose values cancel to exactly zero (Python and NumPy scalars) read normalised, explainers of an untrained / antisymmetric
+    model read through every public accessor (also before the first explanation), empty storages."""
+    from ixai.storage import UniformReservoirStorage, GeometricReservoirStorage, IntervalStorage, BatchStorage
+    from ixai.utils.tracker import WelfordTracker, MultiValueTracker, ExponentialSmoothingTracker, SlidingWindowTracker
+    from ixai.explainer import IncrementalPFI, IncrementalSage
+    from ixai.utils.wrappers import RiverWrapper
+
+    def attempt(name, f):
+        try:
+            r = f()
+            COUNTS["interference:" + name] += 1
+            return r
+        except Exception as ex:      # never seen on the pinned tree; kept visible as a counter, judged by nobody
+            COUNTS["interference-raised:" + name + ":" + type(ex).__name__] += 1
+            return None
+
+    def base_tracker():
+        return rnd.choice([WelfordTracker, lambda: ExponentialSmoothingTracker(rnd.choice([0.001, 0.3, 1.0])),
+                           lambda: SlidingWindowTracker(rnd.choice([1, 3]))])()
+
+    # trackers read before their first update
+    def unread():
+        t = base_tracker()
+        m = MultiValueTracker(base_tracker())
+        return t.get(), t(), repr(t), m.get(), m.get_normalized(), repr(m)
+    attempt("tracker-read-before-first-update", unread)
+
+    # multi-value trackers with >= 2 keys whose tracked values cancel exactly
+    def zero_sum():
+        m = MultiValueTracker(base_tracker())
+        k = rnd.choice([2, 2, 3, 4])
+        num = rnd.choice([float, np.float64, int, lambda v: np.float32(int(v))])
+        for _ in range(rnd.randrange(1, 4)):
+            v = float(rnd.randrange(-4, 5)) if rnd.random() < .8 else 0.0
+            vals = {"k0": num(v), "k1": num(-v)}
+            for j in range(2, k):
+                vals["k%d" % j] = num(0.0)
+            m.update(vals)
+        got = m.get()
+        out = m.get_normalized()
+        if len(got) >= 2 and sum(got.values()) == 0:
+            COUNTS["interference:zero-sum-normalised-read"] += 1
+            COUNTS["interference:zero-sum-normalised-read:" + type(next(iter(got.values()))).__name__] += 1
+        return out
+    attempt("multi-value-tracker", zero_sum)
+
+    def single_key():
+        m = MultiValueTracker(base_tracker())
+        m.update({"only": rnd.choice([0.0, np.float64(0.0), 2.0])})
+        return m.get_normalized()
+    attempt("single-key-normalised-read", single_key)
+
+    # explainers over models whose outputs are all zero / cancel, read through every accessor, also before the first explanation
+    def explainer_edges():
+        names = ["u", "v", "w"][:rnd.choice([2, 3])]
+        kind = rnd.choice(["untrained", "antisym", "untrained-numpy", "river-labels"])
+        if kind == "untrained":
+            mdl = lambda x: {0: 0.0, 1: 0.0}                                             # noqa: E731
+        elif kind == "untrained-numpy":
+            mdl = lambda x: {"a": np.float64(0.0), "b": np.float64(0.0), "c": np.float64(0.0)}      # noqa: E731
+        elif kind == "antisym":
+            mdl = lambda x: {"pos": x["u"] - x["v"], "neg": x["v"] - x["u"]}            # noqa: E731
+        else:
+            mdl = RiverWrapper(lambda x: "hi" if x["u"] > 0 else "lo")
+        lss = lambda y, p: float(max(p, key=p.get) != y) if p else 1.0                  # noqa: E731
+        cls = rnd.choice([IncrementalSage, IncrementalPFI])
+        e = cls(mdl, lss, names, smoothing_alpha=rnd.choice([0.001, 0.1, 1.0]), n_inner_samples=rnd.choice([1, 2]))
+        reads = 0
+        for t in range(rnd.choice([0, 1, 2, 4]) + 1):
+            e.importance_values, e.variances, e.get_normalized_importance_values("sum"), repr(e)
+            if t >= 2:  # (bounds and the 'delta' mode index / reduce over the features: defined once a value has been tracked)
+                e.get_normalized_importance_values("delta")
+                e.get_confidence_bound(rnd.choice([1.0, 0.05, 1e-12]))
+            if cls is IncrementalSage:
+                e.marginal_loss, e.model_loss, e.explained_loss, e.marginal_prediction
+            reads += 1
+            e.explain_one({n: float(rnd.randrange(-2, 3)) for n in names}, rnd.choice([0, 1, "pos", "hi"]))
+        COUNTS["interference:explainer-edge-reads:" + kind] += reads
+    attempt("explainer-of-degenerate-model", explainer_edges)
+
+    def empty_storages():
+        for st in (UniformReservoirStorage(size=rnd.choice([1, 3])), GeometricReservoirStorage(size=2, store_targets=rnd.random() < .5),
+                   IntervalStorage(size=2), BatchStorage()):
+            st.get_data(), len(st), repr(st)
+    attempt("empty-storage-reads", empty_storages)
+
+
+def _hash(o):
+    return hashlib.sha256(repr(o).encode()).hexdigest()[:12]
+
+
+def global_state():
+    """Process-global interpreter / NumPy / torch state the library has no business leaving changed (none of it changes while ixai,
+    river, sklearn and torch are imported lazily or used on the pinned tree - measured).  Returns (comparable, raw-for-restore)."""
+    import decimal
+    import locale
+    import warnings
+    ctx = decimal.getcontext()
+    rs = random.getstate()
+    ns = np.random.get_state()
+    cmp_ = {
+        "numpy.geterr()": tuple(sorted(np.geterr().items())),
+        "numpy.geterrcall()": repr(np.geterrcall()),
+        "numpy.get_printoptions()": tuple(sorted((k, repr(v)) for k, v in np.get_printoptions().items())),
+        "decimal.getcontext()": (ctx.prec, ctx.rounding, ctx.Emin, ctx.Emax, ctx.capitals, ctx.clamp,
+                                 tuple(sorted(t.__name__ for t, on in ctx.traps.items() if on))),
+        "sys.getrecursionlimit()": sys.getrecursionlimit(),
+        "sys.getswitchinterval()": sys.getswitchinterval(),
+        "type of random's global state": (type(rs).__name__, rs[0], len(rs[1]), type(random._inst).__name__,
+                                          getattr(random.random, "__self__", None) is random._inst,
+                                          getattr(random.seed, "__self__", None) is random._inst),
+        "type of numpy.random's global state": (ns[0], len(ns[1]), type(np.random.mtrand._rand).__name__,
+                                                getattr(np.random.seed, "__self__", None) is np.random.mtrand._rand),
+        "warnings.filters": tuple(repr(f) for f in warnings.filters),
+        "gc": (gc.isenabled(), gc.get_threshold()),
+        "os.getcwd()": os.getcwd(),
+        "os.environ": _hash(sorted(os.environ.items())),
+        "sys.path": tuple(sys.path),
+        "locale": locale.setlocale(locale.LC_ALL),
+        "sys.stdout/stderr": (id(sys.stdout), id(sys.stderr)),
+        "float format": (repr(0.1), "%r" % 1e22, str(np.float64(0.1))),
+    }
+    raw = {"np.err": np.geterr(), "np.errcall": np.geterrcall(), "np.print": np.get_printoptions(), "decimal": ctx.copy(),
+           "reclimit": sys.getrecursionlimit(), "switch": sys.getswitchinterval(), "filters": list(warnings.filters),
+           "gc": (gc.isenabled(), gc.get_threshold()), "cwd": os.getcwd()}
+    t = sys.modules.get("torch")
+    if t is not None:
+        try:
+            cmp_["torch"] = (str(t.get_default_dtype()), t.is_grad_enabled(), t.are_deterministic_algorithms_enabled(), t.get_num_threads())
+            raw["torch"] = (t.get_default_dtype(), t.is_grad_enabled())
+        except Exception:
+            pass
+    return cmp_, raw
+
+
+def restore_global_state(raw):
+    import decimal
+    import warnings
+    np.seterr(**raw["np.err"])
+    np.seterrcall(raw["np.errcall"])
+    np.set_printoptions(**raw["np.print"])
+    decimal.setcontext(raw["decimal"].copy())
+    sys.setrecursionlimit(raw["reclimit"])
+    sys.setswitchinterval(raw["switch"])
+    if list(warnings.filters) != raw["filters"]:
+        warnings.filters[:] = raw["filters"]
+        warnings._filters_mutated()
+    (gc.enable if raw["gc"][0] else gc.disable)()
+    gc.set_threshold(*raw["gc"][1])
+    os.chdir(raw["cwd"])
+    t = sys.modules.get("torch")
+    if t is not None and "torch" in raw:
+        t.set_default_dtype(raw["torch"][0])
+        t.set_grad_enabled(raw["torch"][1])
+
+
+class StateWatch:
+    """Sanitizer: snapshots the process-global state before and after every library phase.  A lasting change is recorded with the
+    phase that caused it; the state is put back only when `restore()` is called (end of a configuration), so that the replays that
+    follow the phase still run in - and are judged by the bit-for-bit comparison under - the state the library left behind."""
+
+    def __init__(self):
+        self.changes = []
+        self.base = global_state()
+
+    def phase(self, label, f, *a, **kw):
+        before = global_state()[0]
+        try:
+            return f(*a, **kw)
+        finally:
+            after = global_state()[0]
+            COUNTS["global-state-snapshots"] += 1
+            for k in before:
+                if before[k] != after.get(k):
+                    self.changes.append({"phase": label, "what": k, "before": repr(before[k])[:300], "after": repr(after.get(k))[:300]})
+
+    def drain(self):
+        out, self.changes = self.changes, []
+        return out
+
+    def restore(self):
+        if global_state()[0] != self.base[0]:
+            restore_global_state(self.base[1])
+            COUNTS["global-state-restored-after-a-report"] += 1
 
 
 def scenario(cfg, seed):
@@ -209,6 +406,26 @@ def scenario_gen(cfg, seed):
 
         def loss(y, p):    # noqa: F811
             return sum(v * (1.0 if (lab == "pos") == (y > 0) else 2.0) for lab, v in p.items()) + 0.25 * len(p)
+    if cfg.get("model") == "np-probs":
+        # scores normalised to probabilities and a capped cross-entropy, written with NumPy scalars the usual way: 0/0 for an all-zero
+        # score vector (-> nan -> uniform), exp overflow in the far tail (-> inf -> hard 0/1), log(0) for a hard zero (-> -inf -> cap).
+        # All of these warn and carry on under NumPy's default error handling.
+        COUNTS["np-sensitive-scenarios-built"] += 1
+
+        def model(x):      # noqa: F811
+            if not isinstance(x, dict):
+                return [model(xi) for xi in x]
+            s_ = np.float64(sum(wi * x[n] for wi, n in zip(w, names)))
+            gate = np.float64(x[names[0]])                      # the categorical feature: 0 switches every score off
+            a_, b_ = gate * np.maximum(s_, 0.0), gate * np.maximum(-s_, 0.0) + gate / (1.0 + np.exp(-300.0 * (s_ - 1.0)))
+            pa = a_ / (a_ + b_)
+            if np.isnan(pa):
+                pa = np.float64(0.5)
+            return {"pos": pa, "neg": 1.0 - pa}
+
+        def loss(y, p):    # noqa: F811
+            ce = -np.log(p["pos" if y > 0 else "neg"])
+            return ce if np.isfinite(ce) else np.float64(30.0)
     if cfg.get("output_identity") == "shared" and cfg.get("model") not in STATEFUL_MODELS:
         # a lookup-table / caching model: the SAME dict object is handed out for equal inputs (results must not depend on it)
         cache, inner = {}, model
@@ -352,10 +569,15 @@ def worker():
     cfgs = json.loads(sys.argv[1])
     seed, junkflag = int(sys.argv[2]), sys.argv[3] == "1"
     out = []
+    watch = StateWatch()
     if junkflag:
-        junk(random.Random(os.getpid()))
-    for cfg in cfgs:
-        out.append(scenario(cfg, seed))
+        watch.phase("junk preamble (other library objects created and used)", junk, random.Random(os.getpid()))
+    for k, cfg in enumerate(cfgs):
+        try:
+            out.append(watch.phase(f"scenario {k}", scenario, cfg, seed))
+        except Exception as ex:
+            out.append(["raised %s: %s" % (type(ex).__name__, str(ex)[:200])])
+    print("STATE " + json.dumps(watch.drain()))
     print("DIGESTS " + json.dumps(out))
 
 
@@ -366,7 +588,11 @@ def main(run):
                 "EVERY call; compared bit-for-bit: (a) two replays in one process, (b) a replay after a junk preamble (other library "
                 "objects created and used, GC churn, sleep) before seeding, (c) replays in fresh subprocesses with the same "
                 "PYTHONHASHSEED with and without preamble, (b4) a twin fed equal-valued fresh copies of the recorded observation objects (some streams cycle through a short list of row objects), (b3) a twin that continues on a deep copy of explainer + storage + imputer taken mid-stream, (b2) a twin whose model hands out one shared dict object per distinct input instead of fresh equal dicts, (d) sanity: a different seed must change some digest, otherwise the "
-                "scenario is trivial and not counted; evaluations = replay comparisons; non-trivial = scenarios whose digests depend "
+                "scenario is trivial and not counted; (e) the junk preamble also USES unrelated library objects on their edge paths (zero-sum multi-value trackers read normalised, "
+                "explainers of untrained / antisymmetric models read through every accessor, trackers read before the first update, empty storages) and a share of the "
+                "scenarios use a NumPy-scalar classifier + cross-entropy whose log(0), 0/0 and exp overflow go through NumPy's process-wide error handling; (f) sanitizer: "
+                "process-global state (np.geterr/geterrcall/printoptions, decimal context, recursion limit, switch interval, warnings.filters, gc, cwd, environ, sys.path, "
+                "locale, type of the global random / np.random state, torch defaults) is snapshotted before and after every library phase, a lasting change is a violation; evaluations = replay comparisons; non-trivial = scenarios whose digests depend "
                 "on the seed, distinct by configuration")
     run.assumptions = ["same interpreter configuration includes PYTHONHASHSEED", "seeding precedes construction",
                        "TreeStorage(seed=None) asks river for OS entropy and is outside the scenario set"]
@@ -375,35 +601,51 @@ def main(run):
                 "ixai/imputer/marginal_imputer.py:MarginalImputer.impute", "ixai/imputer/tree_imputer.py:TreeImputer.impute",
                 "ixai/storage/tree_storage.py:TreeStorage.update", "ixai/explainer/sage/incremental.py:IncrementalSage.explain_one",
                 "ixai/explainer/sage/batch.py:BatchSage.explain_many")
+    run.require_count("global-state-snapshots", "np-sensitive-scenarios", "interference:zero-sum-normalised-read",
+                      "interference:explainer-of-degenerate-model", "interference:tracker-read-before-first-update")
     rnd = random.Random(run.shard_seed)
     jrnd = random.Random(run.shard_seed + 1)
     cfgs = []
+    watch = StateWatch()
+
+    def report_state_changes(cfg, seed):
+        for ch in watch.drain():
+            run.violation("global-state-changed", f"{ch['what']} was {ch['before']} before and is {ch['after']} after the phase '{ch['phase']}' "
+                                                  f"(cfg {cfg}): a process-wide setting the library left changed reaches every later replay",
+                          {"cfg": cfg, "seed": seed, "phase": ch["phase"]})
+        watch.restore()
     for i in range(N_CFG[run.tier]):
         cfg = gen_cfg(rnd, i)
         seed = rnd.randrange(2 ** 31)
         cfgs.append((cfg, seed))
+        if cfg.get("model") == "np-probs":
+            run.count("np-sensitive-scenarios")
         try:
-            a = scenario(cfg, seed)
+            a = watch.phase("first replay", scenario, cfg, seed)
         except Exception as ex:
             run.other_error(f"scenario:{type(ex).__name__}:{str(ex)[:60]}")
+            report_state_changes(cfg, seed)
             continue
         replay = {"cfg": cfg, "seed": seed}
         try:
             # the scenario ran alone (a); a replay, or the same scenario after / next to other library objects, must not even raise
-            b = scenario(cfg, seed)
-            keep = junk(jrnd)
-            c = scenario(cfg, seed)
-            other = scenario(cfg, seed + 1) if not cfg.get("drift") else None
-            ident = scenario(dict(cfg, output_identity="shared"), seed) if cfg.get("model") not in STATEFUL_MODELS and not cfg.get("drift") else None
-            copies = scenario(dict(cfg, fresh_copies=True), seed) if not cfg.get("drift") and cfg["explainer"] != "batch-many" else None
+            b = watch.phase("second replay", scenario, cfg, seed)
+            keep = watch.phase("junk preamble (other library objects created and used)", junk, jrnd)
+            c = watch.phase("replay after junk preamble", scenario, cfg, seed)
+            other = watch.phase("replay with another seed", scenario, cfg, seed + 1) if not cfg.get("drift") else None
+            ident = watch.phase("shared-output twin", scenario, dict(cfg, output_identity="shared"), seed) if cfg.get("model") not in STATEFUL_MODELS and not cfg.get("drift") else None
+            copies = watch.phase("fresh-copies twin", scenario, dict(cfg, fresh_copies=True), seed) if not cfg.get("drift") and cfg["explainer"] != "batch-many" else None
             ckpt_at = [2, 5, max(1, len(a) // 2)][i % 3]
-            ckpt = scenario(dict(cfg, checkpoint_at=ckpt_at), seed) if not cfg.get("drift") else None
+            ckpt = watch.phase("checkpoint twin", scenario, dict(cfg, checkpoint_at=ckpt_at), seed) if not cfg.get("drift") else None
             del keep
         except Exception as ex:
+            report_state_changes(cfg, seed)
             run.ok(kind="in-process")
             run.violation("history-dependence", f"cfg {cfg}: the scenario ran alone, but a replay / other library objects in the same process "
                                                 f"raised {type(ex).__name__}: {ex}", replay)
             continue
+        run.ok(kind="global-state-unchanged")
+        report_state_changes(cfg, seed)
         run.ok(2, kind="in-process")
         for name, dgs in (("second replay", b), ("replay after junk preamble", c)):
             if dgs != a:
@@ -443,7 +685,10 @@ def main(run):
         if cfg.get("drift"):
             continue
         try:
-            d_int = interleaved(cfg, seed, cfg_b, seed + 7)
+            try:
+                d_int = watch.phase("interleaved twin", interleaved, cfg, seed, cfg_b, seed + 7)
+            finally:
+                report_state_changes(cfg, seed)
             run.ok(kind="interleaved-twin")
             if d_int != a:
                 step = next((k for k, (p_, q_) in enumerate(zip(a, d_int)) if p_ != q_), None)
@@ -463,6 +708,11 @@ def main(run):
                                capture_output=True, text=True, timeout=600, env=env)
             line = [l for l in p.stdout.splitlines() if l.startswith("DIGESTS ")]
             outs.append(json.loads(line[-1][8:]) if line else None)
+            for sl in [l for l in p.stdout.splitlines() if l.startswith("STATE ")][-1:]:
+                run.ok(kind="global-state-unchanged")
+                for ch in json.loads(sl[6:]):
+                    run.violation("global-state-changed", f"fresh process: {ch['what']} was {ch['before']} before and is {ch['after']} after the phase "
+                                                          f"'{ch['phase']}' of {sub}", {"cfgs": sub, "seed": seed, "phase": ch["phase"], "junk": junkflag})
             if not line:
                 run.unreachable("subprocess replay produced no digests: " + (p.stderr or p.stdout)[-400:])
         except subprocess.TimeoutExpired:
@@ -476,6 +726,8 @@ def main(run):
                 run.violation("cross-process-divergence", f"fresh processes disagree for cfg {c}", {"cfg": c, "seed": seed})
             if outs[1][i] != outs[0][i]:
                 run.violation("history-dependence", f"fresh process with junk preamble disagrees for cfg {c}", {"cfg": c, "seed": seed})
+    for k_, v_ in COUNTS.items():
+        run.count(k_, v_)
 
 
 if __name__ == "__main__":
